@@ -7,7 +7,7 @@ a feature mask and size bounds.  Two families:
            LOCATE, VIEW PRINT, PLAY, BLOAD/BSAVE/KILL, PRINT USING, ^)
 
 Every choice comes from the `random.Random` passed in."""
-from .qast import (NUM, RANK, CMP, LOGIC, expr_type, TypeEnv, number_stmts,
+from .qast import (NUM, RANK, CMP, LOGIC, expr_type, TypeEnv, number_stmts, sub_bodies,
                   name_type, paren_depth, pe)
 
 INT_MAX = {'%': 32767, '&': 2147483647}
@@ -957,6 +957,10 @@ class Gen:
         depth = r.randint(0, 3) if depth is None else depth
         pre = []
 
+        repairs = []
+        GOOD = {0: 1, 32767: 0, 1: 0, 2147483647: 0, 40000: 4, 20000: 1, 2: 1, -1: 1,
+                256: 65, '': 'A', -2: 2, 4: 2, 100: 2}
+
         def operand(ty, value):
             if fold:
                 return ['lit', ty, value]
@@ -964,6 +968,7 @@ class Gen:
             sc.vars[n] = ty
             sc.frozen.add(n)
             pre.append({'k': 'let', 'lv': ['var', n], 'e': ['lit', ty, value]})
+            repairs.append({'k': 'let', 'lv': ['var', n], 'e': ['lit', ty, GOOD.get(value, 1)]})
             return ['var', n]
 
         ty = '%'
@@ -1022,6 +1027,7 @@ class Gen:
                 self.data_items.append('abc')
             st = {'k': 'read', 'lvs': [['var', n]], 'plant': kind}
             self.planted_data = True
+            self.last_repairs = None
             return pre, st
         # bury the failing sub-expression `depth` levels deep, with operands
         # pending on the stack in front of it
@@ -1046,6 +1052,10 @@ class Gen:
             st = {'k': 'if', 'arms': [[['bin', '>', e, ['lit', '%', 0]],
                                        [self.print_stmt(sc, 0)]]], 'els': None}
         st['plant'] = kind
+        # making the last operand harmless lets the statement succeed when it
+        # is executed again (RESUME); literal operands cannot be repaired
+        self.last_repairs = repairs[-1:] if (repairs and kind != 'ovf_neg') else \
+            (repairs if repairs else None)
         return pre, st
 
     # -- whole program ----------------------------------------------------------
@@ -1063,7 +1073,7 @@ class Gen:
         hl = None
         main += self.declarations(sc)
         self.add_array_params()
-        if onerr in ('goto_next', 'goto_end'):
+        if onerr in ('goto_next', 'goto_end', 'goto_resume'):
             hl = self.fresh('hnd')
             main.append({'k': 'onerr', 'mode': 'goto', 'label': hl})
         elif onerr == 'resume_next':
@@ -1087,17 +1097,43 @@ class Gen:
                 g = {'k': 'ifl', 'cond': self.cond(sc, 1), 'then': [g], 'els': None}
             body.insert(j, {'k': 'label', 'name': lab})
             body.insert(i, g)
-        if self.p['plant']:
-            pre, st = self.plant(sc)
-            i = r.randint(0, len(body))
+        self.plants = []
+        all_repairs = []
+        nplants = self.p.get('plants', 1 if self.p['plant'] else 0)
+        for _ in range(nplants):
+            kind = None
+            if onerr == 'goto_resume':
+                kind = r.choice([k for k in self.PLANT_KINDS if k not in ('out_of_data', 'bad_data')])
+            pre, st = self.plant(sc, kind=kind, fold=False if onerr == 'goto_resume' else None,
+                                 form=r.choice(('let', 'let', 'print')) if self.p.get('plants') else None)
+            site = body
+            if self.p.get('plants') and r.random() < 0.5:
+                # inside a nested block or on a multi-statement line
+                sites = []
+
+                def walk(b):
+                    for x in b:
+                        if x['k'] == 'multi' and st['k'] in ('let', 'print'):
+                            sites.append(x['stmts'])
+                        for sub in sub_bodies(x):
+                            if x['k'] not in ('multi', 'ifl'):
+                                sites.append(sub)
+                                walk(sub)
+                walk(body)
+                if sites:
+                    site = r.choice(sites)
+            i = r.randint(0, len(site))
             if st['k'] == 'read' and st['plant'] == 'out_of_data':
-                i = len(body)
-            body.insert(i, st)
+                site, i = body, len(body)
+            site.insert(i, st)
             # set-up goes to the very front: a GOTO must not skip a DIM (a
             # static array whose DIM never executed is outside the subset)
             for q in reversed(pre):
                 body.insert(0, q)
             self.planted = st
+            self.plants.append(st)
+            if self.last_repairs:
+                all_repairs += self.last_repairs
         main += body
         if onerr and r.random() < 0.3:
             main.append({'k': 'onerr', 'mode': 'off'})
@@ -1117,6 +1153,9 @@ class Gen:
                                                  [['dev', 'err', []], '']], 'marker': m})
             if onerr == 'goto_next':
                 main.append({'k': 'resume', 'next': True})
+            elif onerr == 'goto_resume':
+                main += all_repairs
+                main.append({'k': 'resume', 'next': False})
             else:
                 main.append({'k': 'end'})
         if self.data_items:
@@ -1141,6 +1180,9 @@ def gen_program(r, prof):
     prog = g.program()
     meta = {'input_specs': g.input_specs, 'n_data': len(g.data_items),
             'markers': g.marker}
+    meta['plants'] = [{'id': x['id'], 'kind': x['plant'],
+                       'trap': Gen.PLANT_TRAP[x['plant'].split('_')[0]]}
+                      for x in getattr(g, 'plants', [])]
     st = getattr(g, 'planted', None)
     if st is not None:
         k = st['plant']
